@@ -34,6 +34,7 @@ BIND_SHARED = ("SPECIFICATION SpecShared\nINVARIANT C12_BindFresh\nINVARIANT C12
 # family -> (driver, sub-command, vector file)
 FAMILIES = {
     "header-emit": ("header", "emit", "emit_vectors.ndjson"),
+    "header-emit-shared": ("header", "emit-shared", "emit_shared.ndjson"),
     "header-accept": ("header", "accept", "accept_vectors.ndjson"),
     "bind-init": ("bind", "init", "bind_init.ndjson"),
     "bind-recv": ("bind", "recv", "bind_recv.ndjson"),
@@ -52,6 +53,12 @@ def classify(family, m):
         if all("In().Lang" in x for x in d):
             return "header-lang-not-recovered", "a library peer does not recover the language of the emitted header: " + d[0]
         return "header-emit-other", "emitted header differs from the specification: " + "; ".join(d[:3])
+    if family == "header-emit-shared":
+        d = m["diffs"]
+        if m["vector"]["in"]["mode"] == "persession" and all("xml:lang" in x or "In().Lang" in x for x in d):
+            return ("negotiator-config-shared-across-sessions",
+                    "a Negotiator value keeps the stream configuration of the session it negotiated last: the first header of the next session carries that session's language instead of the configured one: " + d[0])
+        return "header-emit-shared-other", "header emitted by a session negotiated through a shared Negotiator differs from the specification: " + "; ".join(d[:3])
     if family == "header-accept":
         v = m["vector"]
         if m["observed"] == "panic":
@@ -88,6 +95,9 @@ def selftest(ctx, files):
     v = first(files["emit_vectors.ndjson"], lambda v: True)
     v["exp"]["version"] = "9.9"
     cases.append(("header-emit", v, lambda m: any("version" in x for x in m["diffs"])))
+    v = first(files["emit_shared.ndjson"], lambda v: v["in"]["mode"] == "const" and len(v["in"]["sess"]) == 3)
+    v["exp"][2]["version"] = "9.9"
+    cases.append(("header-emit-shared", v, lambda m: any("session 3" in x and "version" in x for x in m["diffs"])))
     v = first(files["accept_vectors.ndjson"], lambda v: v["exp"] == "reject" and v["in"]["name"] == "othername")
     v["exp"] = "streamerror"
     cases.append(("header-accept", v, lambda m: m["observed"] == "reject"))
@@ -146,7 +156,7 @@ def run(ctx):
     mc["bind_shared"] = ctx.model_check("MCBind", bstrict + BIND_SHARED, ["C12_BindFresh", "C12_BindOwnAccount", "C12_BindCallbackOwnArgs"], name="MCBind")
     nv = nonvacuous(ctx, quick)
     # ---------------------------------------------------------------- pipeline B
-    files, _ = ac.emit(ctx, "EmitHeader", strict + "INIT EInit\nNEXT ENext\n", ["emit_vectors.ndjson", "accept_vectors.ndjson"])
+    files, _ = ac.emit(ctx, "EmitHeader", strict + "INIT EInit\nNEXT ENext\n", ["emit_vectors.ndjson", "emit_shared.ndjson", "accept_vectors.ndjson"])
     f2, _ = ac.emit(ctx, "EmitBind", bemit + "INIT EInit\nNEXT ENext\n", ["bind_init.ndjson", "bind_recv.ndjson", "bind_shared.ndjson"])
     files.update(f2)
     # ---------------------------------------------------------------- pipeline C
@@ -179,6 +189,11 @@ def run(ctx):
         for m in s["mismatches"]:
             cls, what = classify(fam, m)
             per_class.setdefault(cls, []).append((fam, what, m))
+    rep = totals.get("header-emit-shared", {}).get("extra", {}).get("stream_ids_repeated_within_a_scenario", 0)
+    if rep:
+        # (RFC 6120 4.7.3 wants stream ids unique; the property speaks only of carrying them faithfully)
+        ctx.log("OBSERVATION (not judged): %d stream ids were issued twice by one Negotiator value" % rep)
+        ctx.notes.append("observation: %d stream ids issued twice by sessions of one Negotiator value" % rep)
     for cls, ms in sorted(per_class.items()):
         if cls in open_classes:
             ctx.known_finding(open_classes[cls], "%d vectors" % len(ms))
@@ -199,7 +214,7 @@ def run(ctx):
         "distinct_nontrivial": sum(t["distinct"] for t in totals.values()),
         "by_family": totals, "mismatches_by_class": {k: len(v) for k, v in per_class.items()},
         "nonvacuity_runs_violating": nv, "binding_selftest_corruptions_reported": nself,
-        "exhaustive": "emission: special characters (' & < > \") in every position of resourceparts / language strings up to length %d, one value at a time and all together, both roles, c2s/s2s, TCP and WebSocket framing; acceptance: full product of role x framing x element name x default namespace x version x id x to x from x prefix (declaration / whitespace) + stream errors; bind: every own resourcepart up to length %d x 12 reply kinds x 3 assigned addresses, 2 request ids x requested resources x 7 callback behaviours; shared feature list values (one or two values: BindResource(), BindCustom(nil), callbacks): 2 sessions x every interleaving x accounts x requests, 3 sessions x every interleaving x accounts, 4 sessions (%s), sessions of one feature value sharing the Negotiator or only the feature list; assigned resourceparts of default binds compared pairwise across sessions, accounts and feature values" % (n, n, "successive / all open before the first bind / nested / mixed" if quick else "every interleaving"),
+        "exhaustive": "emission through one Negotiator value shared by 2-3 successive sessions with different addresses (constant and per-session configuration function, both roles, c2s/s2s, both framings); emission: special characters (' & < > \") in every position of resourceparts / language strings up to length %d, one value at a time and all together, both roles, c2s/s2s, TCP and WebSocket framing; acceptance: full product of role x framing x element name x default namespace x version x id x to x from x prefix (declaration / whitespace) + stream errors; bind: every own resourcepart up to length %d x 12 reply kinds x 3 assigned addresses, 2 request ids x requested resources x 7 callback behaviours; shared feature list values (one or two values: BindResource(), BindCustom(nil), callbacks): 2 sessions x every interleaving x accounts x requests, 3 sessions x every interleaving x accounts, 4 sessions (%s), sessions of one feature value sharing the Negotiator or only the feature list; assigned resourceparts of default binds compared pairwise across sessions, accounts and feature values" % (n, n, "successive / all open before the first bind / nested / mixed" if quick else "every interleaving"),
         "rule": "vector families: TLC writes input and expectation, the driver compares the real sessions' behaviour with it; every mismatch is re-run once",
         "samples": samples[:3],
         "part_c": "restart header address rule: covered by the negotiation family (Negotiation.tla C12_EstabStable), not run here",
